@@ -187,7 +187,37 @@ class HistArith(Hist):
                 pass
         operands_snapshot = list(chosen)
         self.arg_shape = weighted_choice(rng, [('list', 12), ('tuple', 3), ('iterator', 3), ('generator', 2)])
+        # now and then a call that has to be refused (an operand label that names no gate, a result label that is taken):
+        # whatever it raises, the statement about the frame is unconditional - pre-existing gates stay, with their function
+        self.taken_label = self.taken_label_used = None
+        refuse = None
+        if chosen and chosen is not host.real.inputs and chosen is not host.real.outputs and rng.random() < 0.05:
+            refuse = rng.choice(('result-label-taken', 'operand-missing'))
+            if refuse == 'result-label-taken':
+                u = pre.users()
+                dangling = [x for x in pre.gates if not u.get(x)]
+                self.taken_label = rng.choice(dangling or list(pre.gates))
         call, desc = spec['bind'](host.real, chosen)
+        if refuse == 'result-label-taken' and not self.taken_label_used:
+            refuse = 'operand-missing'
+        if refuse == 'operand-missing':
+            bad = list(chosen)
+            bad[rng.randrange(len(bad))] = '__absent__'
+            call, desc = spec['bind'](host.real, bad)
+        if refuse:
+            self.ev['call'] = f'#{host.sid}.{desc} [{refuse}: has to be refused]'
+            self.ev['valid'] = False
+            raised = None
+            try:
+                call()
+            except Exception as e:  # noqa
+                raised = e
+            self.res.stats.probes.bump(f'gadget-call-to-be-refused:{refuse}:{"raised" if raised is not None else "accepted"}')
+            self.ev['out'] = f'rejected:{exc_name(raised)}' if raised is not None else 'accepted-invalid'
+            if raised is not None:
+                self.judge_frame_after_refusal(g, host, pre, rng, refuse)
+            self.quarantine([host], 'rejected')
+            return
         self.ev['call'] = f'#{host.sid}.{desc}' + ('' if self.arg_shape == 'list' else f' [operand lists passed as {self.arg_shape}]') \
             + (' [operands are c.outputs itself]' if chosen is host.real.outputs else '')
         self.ev['valid'] = True
@@ -267,6 +297,33 @@ class HistArith(Hist):
             self.quarantine([host], 'violation')
             return
         self.settle([host], with_copy=False)
+
+    def judge_frame_after_refusal(self, g, host, pre, rng, refuse):
+        try:
+            now, _ = observe.snap(host.real)
+        except Exception as e:  # noqa
+            self.violate(g.prop, 'frame', f'{g.name}:view-unreadable:after-refused-call', str(e))
+            return
+        gone = [x for x in pre.gates if x not in now.gates]
+        if gone:
+            self.violate(g.prop, 'frame', f'{g.name}:gate-removed:after-refused-call',
+                         f'the call was refused ({refuse}) and pre-existing gates {gone[:3]} are gone')
+            return
+        changed = [x for x in pre.gates if now.gates[x] != pre.gates[x]]
+        if changed:
+            # a different definition is only a problem if the function differs
+            assign, mask, L, exh = lane_assign(pre.inputs, rng)
+            try:
+                pv = pre.lanes(assign, mask)
+                nv = now.lanes({x: assign[x] for x in pre.inputs if x in now.gates and now.gates[x][0] == 'INPUT'}, mask)
+            except ModelError:
+                return
+            bad = [x for x in changed if nv.get(x) != pv.get(x)]
+            if bad:
+                self.violate(g.prop, 'frame', f'{g.name}:function-changed:after-refused-call',
+                             f'the call was refused ({refuse}) and the function of pre-existing gates {bad[:3]} changed')
+                return
+        self.res.stats.probes.bump('frame-checked-after-refused-call')
 
     def edit_between_calls(self, host, pre, operands, edit, rng):
         real = host.real
@@ -990,6 +1047,9 @@ def build_specs(eng):
             rl = None
             if use_labels:
                 rl = [f'z{eng.opi}_{i}' for i in range(out_len)]
+                if getattr(eng, 'taken_label', None) is not None:
+                    rl[rng.randrange(len(rl))] = eng.taken_label
+                    eng.taken_label_used = True
                 kw['result_labels'] = list(rl)
             if add_outputs or rng.random() < 0.3:
                 kw['add_outputs'] = add_outputs
@@ -1042,6 +1102,9 @@ def build_specs(eng):
             kw = {}
             if use_label:
                 kw['result_label'] = f'ite{eng.opi}'
+                if getattr(eng, 'taken_label', None) is not None:
+                    kw['result_label'] = eng.taken_label
+                    eng.taken_label_used = True
             if add_outputs or rng.random() < 0.3:
                 kw['add_outputs'] = add_outputs
             return (lambda: GEN.add_if_then_else(host, chosen[0], chosen[1], chosen[2], **kw)), f'add_if_then_else({chosen},{kw})'
@@ -1073,6 +1136,9 @@ def build_specs(eng):
                 kw = {}
                 if use_labels:
                     kw['result_labels'] = [f'pw{eng.opi}_{i}' for i in range(n)]
+                    if n and getattr(eng, 'taken_label', None) is not None:
+                        kw['result_labels'][rng.randrange(n)] = eng.taken_label
+                        eng.taken_label_used = True
                 if add_outputs or rng.random() < 0.3:
                     kw['add_outputs'] = add_outputs
                 groups = [list(chosen[i * n:(i + 1) * n]) for i in range(k)]
